@@ -759,6 +759,7 @@ JNP = {
     'maximum': lambda a, b: elemwise(lambda x, y: _minmax('max', x, y), a, b),
     'minimum': lambda a, b: elemwise(lambda x, y: _minmax('min', x, y), a, b),
     'roll': lambda a, shift, axis=None: np.roll(asarr(a), toint(shift), axis=axis),
+    'tril': lambda a, k=0: _tri(a, k, True), 'triu': lambda a, k=0: _tri(a, k, False),
     'mod': lambda a, b: elemwise(_mod, a, b), 'remainder': lambda a, b: elemwise(_mod, a, b),
     'split': lambda x, n, axis=-1: list(np.split(asarr(x), n, axis=axis)),
     'prod': lambda x, **k: asarr(x).prod(),
@@ -799,6 +800,39 @@ def _arctan2(y, x):
     if y.is_const() and y.constval() == 0 and x.is_const() and x.constval() > 0:
         return Rat.lift(0)
     return uf('arctan2', y, x)
+
+def _tri(a, k, lower):
+    a = asarr(a).copy()
+    n, m = a.shape
+    for i in range(n):
+        for j in range(m):
+            if (j - i > k) if lower else (j - i < k):
+                a[i, j] = Rat.lift(0)
+    return a
+
+def linsolve(A, Bm):
+    """Solve A X = B by fraction-free-ish Gaussian elimination over AVN values (exact or GF(p))."""
+    A = asarr(A).copy(); Bm = asarr(Bm).copy()
+    vec = Bm.ndim == 1
+    if vec:
+        Bm = Bm.reshape(-1, 1)
+    n = A.shape[0]
+    for c in range(n):
+        piv = None
+        for r in range(c, n):
+            if not Rat.lift(A[r, c]).is_zero():
+                piv = r; break
+        if piv is None:
+            raise OutOfFragment('singular matrix in linear solve')
+        if piv != c:
+            A[[c, piv]] = A[[piv, c]]; Bm[[c, piv]] = Bm[[piv, c]]
+        inv = Rat.lift(1) / Rat.lift(A[c, c])
+        A[c] = A[c] * inv; Bm[c] = Bm[c] * inv
+        for r in range(n):
+            if r != c and not Rat.lift(A[r, c]).is_zero():
+                f_ = A[r, c]
+                A[r] = A[r] - A[c] * f_; Bm[r] = Bm[r] - Bm[c] * f_
+    return Bm[:, 0] if vec else Bm
 
 def _minmax(name, x, y):
     x, y = Rat.lift(x), Rat.lift(y)
@@ -860,7 +894,7 @@ def diagm(v):
     for i in range(n):
         e[i, i] = v[i]
     return e
-JNP['linalg'] = {'norm': P_norm}
+JNP['linalg'] = {'norm': P_norm, 'solve': lambda a, b: linsolve(a, b), 'inv': lambda a: linsolve(a, P_eye(asarr(a).shape[0]))}
 PI = Rat(Poly.sym('pi'))
 JNP['pi'] = PI
 
@@ -1210,7 +1244,7 @@ class Interp:
                 return ('bound', 'vmapproxy', v)
             if a == 'replace':
                 return ('bound', 'replace', v)
-            if a in ('take', 'concatenate', 'reshape', 'index_sum', 'index_set', 'slice', 'select', 'T'):
+            if a in ('take', 'concatenate', 'reshape', 'T'):
                 return ('bound', a, v)
             home = v.home or STRUCT_HOME.get(v.cls)
             if home:
@@ -1344,6 +1378,11 @@ class Interp:
             return self.tree_map(('prim', op, lambda x: elemwise(lambda v: uf(op, v, ax), x)), args[0])
         if name in ('jax.sharding.PartitionSpec', 'jax.sharding.NamedSharding', 'jax.sharding.Mesh'):
             return ('opaque', name)
+        if name in ('jax.scipy.linalg.solve', 'jax.numpy.linalg.solve', 'numpy.linalg.solve'):
+            return linsolve(args[0], args[1])
+        if name == 'itertools.product':
+            import itertools as _it
+            return list(_it.product(*[list(a) for a in args]))
         if name in ('jax.pmap',):
             return Vmapped(args[0])
         if name in ('jax.experimental.pjit.pjit', 'jax.pjit'):
@@ -1632,6 +1671,15 @@ class Interp:
             return getattr(v, m)(*args, **kw)
         if what in ('at_add', 'at_set'):
             arr = asarr(v.arr).copy(); idx = v.idx; val = asarr(args[0])
+            if isinstance(idx, tuple) and any(isinstance(x, np.ndarray) for x in idx):
+                cols = [toint(x) if isinstance(x, np.ndarray) else x for x in idx]
+                n_ = max(len(np.atleast_1d(c)) for c in cols)
+                cols = [np.broadcast_to(np.atleast_1d(c), (n_,)) for c in cols]
+                vals = np.broadcast_to(val, (n_,) + arr.shape[len(cols):])
+                for k in range(n_):
+                    pos = tuple(int(c[k]) for c in cols)
+                    arr[pos] = (arr[pos] + vals[k]) if what == 'at_add' else vals[k]
+                return arr
             if isinstance(idx, np.ndarray):
                 idxs = idx.ravel().tolist(); vals = np.broadcast_to(val, (len(idxs),) + arr.shape[1:])
                 for k, i in enumerate(idxs):
